@@ -314,6 +314,11 @@ def contracts(env):
     return [cir, gji, cp, cit, cfv, jc] + lems
 
 
+def extra(rep, tier, seed, budget):
+    from bounded import author_options as _ao
+    _ao.integrate(rep)
+
+
 META = {
     'level': 'proof',
     'explanation': 'jira_checks and its five helpers verified against the statement; jira_checks is checked '
